@@ -38,6 +38,11 @@ pub struct SvcIdentity {
     /// index, the record is that of another member Y = index) - only A proved anything, and only about A
     #[serde(default)]
     pub foreign_reports: Vec<(u8, u8)>,
+    /// sessions of OTHER identities seen at a member's socket: (member X = index, incoming). A party
+    /// at X's socket completed a valid handshake under its own key (record advertising that socket
+    /// too): it proved to be that identity, nothing about X
+    #[serde(default)]
+    pub same_socket_sessions: Vec<(u8, bool)>,
 }
 
 async fn run_svc_identity(c: &SvcIdentity, rep: &mut CaseReport) -> Option<(String, String)> {
@@ -126,6 +131,28 @@ async fn run_svc_identity(c: &SvcIdentity, rep: &mut CaseReport) -> Option<(Stri
             ));
         }
         rep.class("service-companion/unverifiable-report-with-a-third-node's-record");
+        rep.nontrivial = true;
+    }
+    for (j, (xi, incoming)) in c.same_socket_sessions.iter().take(4).enumerate() {
+        let x = members[*xi as usize % members.len()];
+        let xid = keys::id_of(x);
+        let sock = svc_addr4(x);
+        let a_key = 1360 + j as u32;
+        let a_rec = crate::engines::wire::node_record(&keys::key(a_key), Some(sock), None, 1);
+        let before = snapshot(&s);
+        s.inject(HandlerOut::Established(a_rec, sock, if *incoming { Dir::Incoming } else { Dir::Outgoing })).await;
+        let after = snapshot(&s);
+        s.take_events();
+        s.take_outbox();
+        let xb = before.iter().find(|e| e.0 == xid);
+        let xa = after.iter().find(|e| e.0 == xid);
+        if xb.is_some() && xb != xa {
+            return Some((
+                "identity/table-entry-of-a-third-node-changed".into(),
+                format!("a party at {sock} completed a handshake as node {} (its own key; its record advertises that socket); the routing-table entry of node {}, whose record advertises the same socket and which took part in nothing, changed from {:?} to {:?}", ids::hex_id(&keys::id_of(a_key)), ids::hex_id(&xid), xb.map(|e| &e.2), xa.map(|e| &e.2)),
+            ));
+        }
+        rep.class("service-companion/session-of-another-identity-at-a-member's-socket");
         rep.nontrivial = true;
     }
     s.d.shutdown();
@@ -261,6 +288,7 @@ impl Identity {
                 Signer::Garbage => "garbage",
                 Signer::Empty => "empty",
                 Signer::Truncated => "truncated",
+                Signer::Genuine => "the-node's-own-key",
                 Signer::AdvExtended(..) => "adv-key-with-appended-bytes",
             };
             self.class(format!("forged/{know}/{r}/{sg}{}", if outstanding { "" } else { "/no-challenge-outstanding" }));
@@ -424,8 +452,9 @@ impl Property for C01 {
             proptest::collection::vec((any::<u8>(), any::<bool>()), 1..8),
             proptest::collection::vec((any::<u8>(), 0u8..4, prop_oneof![4 => Just(false), 1 => Just(true)]), 1..8),
             proptest::collection::vec((any::<u8>(), any::<u8>()), 0..3),
+            proptest::collection::vec((any::<u8>(), any::<bool>()), 0..3),
         )
-            .prop_map(|(cfg, peers, probes, foreign_reports)| Case { cfg, ops: vec![], svc: Some(SvcIdentity { peers, probes, foreign_reports }) });
+            .prop_map(|(cfg, peers, probes, foreign_reports, same_socket_sessions)| Case { cfg, ops: vec![], svc: Some(SvcIdentity { peers, probes, foreign_reports, same_socket_sessions }) });
         prop_oneof![60 => wire, 1 => companion].boxed()
     }
     fn run(case: &Case) -> CaseReport {
@@ -441,7 +470,7 @@ impl Property for C01 {
         rep
     }
     fn rule() -> String {
-        "attack scripts (<=25 quick / <=60 thorough ops) against V with 1..3 honest peers exchanging genuine traffic: for a claimed id X in {an honest peer known to V with its current record, with an older record, unknown to V, a random id} the attacker (own keys, 3 source addresses, never a peer's secret key) sends undecryptable probes to provoke V's WHOAREYOU, then handshakes built with the real primitives: signed by an attacker key / garbage / empty / truncated, ephemeral key valid / invalid point / wrong length, attached record = the attacker's own record (seq 0, below, equal, above the known one, 2^64-1; address matching / other / absent), the peer's genuine record, a third party's record, none; bodies PING / FINDNODE / TALK encrypted under the keys the attacker can derive, follow-up messages under those keys, replays (also of handshake packets V accepted: at once, while the session is used, after the challenge lifetime; the peer's record matching its address or - a quarter of the cases - not), forged WHOAREYOUs, and requests V sends to the peer's key at an attacker address. Invariant after every step: no request/response/Established/UnverifiableEnr attributed to a foreign id at an attacker address, no session keyed to it created by an inbound handshake, nothing V emits to it decrypts under an attacker-derivable key, and honest sessions/requests are untouched by steps that only process attacker traffic; and (the 'fresh WHOAREYOU' clause, C03's ledger of emitted challenges) a session appears / is re-keyed or Established is reported on a handshake packet only while an unconsumed, unexpired WHOAREYOU of that node to exactly (id, source address) exists. One case in 61 is a companion on the service engine: a real service with 1..8 table members (incoming and outgoing) receives the handler's who-are-you query - the one handler event triggered by a datagram nobody authenticated - for a member's id or an unknown id from the record's socket, another port, another IP or an IPv6 address; the routing table (ids, record versions, connection status) must be unchanged afterwards and no event may be emitted; and reports that a member A presented the record of another member Y which it could not vouch for must leave Y's entry untouched. Non-trivial = a forged handshake whose id-signature verifies under the attached record's key arrives while V's WHOAREYOU to (X, attacker address) is outstanding.".into()
+        "attack scripts (<=25 quick / <=60 thorough ops) against V with 1..3 honest peers exchanging genuine traffic: for a claimed id X in {an honest peer known to V with its current record, with an older record, unknown to V, a random id} the attacker (own keys, 3 source addresses, never a peer's secret key) sends undecryptable probes to provoke V's WHOAREYOU, then handshakes built with the real primitives: signed by an attacker key / garbage / empty / truncated, ephemeral key valid / invalid point / wrong length, attached record = the attacker's own record (seq 0, below, equal, above the known one, 2^64-1; address matching / other / absent), the peer's genuine record, a third party's record, none; bodies PING / FINDNODE / TALK encrypted under the keys the attacker can derive, follow-up messages under those keys, replays (also of handshake packets V accepted: at once, while the session is used, after the challenge lifetime; the peer's record matching its address or - a quarter of the cases - not), forged WHOAREYOUs, and requests V sends to the peer's key at an attacker address. Invariant after every step: no request/response/Established/UnverifiableEnr attributed to a foreign id at an attacker address, no session keyed to it created by an inbound handshake, nothing V emits to it decrypts under an attacker-derivable key, and honest sessions/requests are untouched by steps that only process attacker traffic; and (the 'fresh WHOAREYOU' clause, C03's ledger of emitted challenges) a session appears / is re-keyed or Established is reported on a handshake packet only while an unconsumed, unexpired WHOAREYOU of that node to exactly (id, source address) exists. One case in 61 is a companion on the service engine: a real service with 1..8 table members (incoming and outgoing) receives the handler's who-are-you query - the one handler event triggered by a datagram nobody authenticated - for a member's id or an unknown id from the record's socket, another port, another IP or an IPv6 address; the routing table (ids, record versions, connection status) must be unchanged afterwards and no event may be emitted; and reports that a member A presented the record of another member Y which it could not vouch for must leave Y's entry untouched; so must a session of ANOTHER identity (own key, record advertising the same socket) established at a member's socket. Non-trivial = a forged handshake whose id-signature verifies under the attached record's key arrives while V's WHOAREYOU to (X, attacker address) is outstanding.".into()
     }
     fn assumptions() -> Vec<String> {
         vec![
